@@ -4,7 +4,7 @@ import base64
 from hypothesis import strategies as st
 
 from harness import build, gen, simnet, wire, httpref
-from harness.runner import Prop, Enumeration, held, failed, after_every_prelude
+from harness.runner import Prop, Enumeration, held, failed, after_every_prelude, with_noise, with_companion
 from props.c01 import effective_seg
 
 HOSTS = ["example.test", "EXAMPLE.Test", "a.b-c.example", "127.0.0.1", "localhost", "xn--bcher-kva.example"]
@@ -189,7 +189,8 @@ class C10(Prop):
                    dict(base, reply={"status": 101, "upgrade": "h2c", "accept": "correct", "terminate": True}),
                    dict(base, reply={"status": 200, "upgrade": "websocket", "accept": "correct", "terminate": True})]
         return [Enumeration("accept_x_upgrade_x_status", accepts, exhaustive=True),
-                Enumeration("header_spellings", spellings, exhaustive=True), after_every_prelude(battery)]
+                Enumeration("header_spellings", spellings, exhaustive=True), after_every_prelude(battery),
+                with_companion(battery)]
 
     def run_case(self, case):
         u = case["url"]
